@@ -7,6 +7,7 @@ import (
 	"fmt"
 	"net/url"
 	"path"
+	"sort"
 
 	"github.com/benoitkugler/webrender/logger"
 	mt "github.com/benoitkugler/webrender/matrix"
@@ -316,8 +317,15 @@ func (d *Document) resolveLinks() ([][]Link, [][]backend.Anchor) {
 	pagedAnchors := make([][]backend.Anchor, len(d.Pages))
 	for i, page := range d.Pages {
 		var current []backend.Anchor
-		for anchorName, pos := range page.anchors {
+		// use a fixed order: the iteration order of a map is random
+		names := make([]string, 0, len(page.anchors))
+		for anchorName := range page.anchors {
+			names = append(names, anchorName)
+		}
+		sort.Strings(names)
+		for _, anchorName := range names {
 			if !anchors.Has(anchorName) {
+				pos := page.anchors[anchorName]
 				current = append(current, backend.Anchor{Name: anchorName, X: pos[0], Y: pos[1]})
 				anchors.Add(anchorName)
 			}
